@@ -15,7 +15,7 @@ RULE = ("Domain: every exported optimizer except those whose update rule reads A
         "count (fitness_error=None, no early stopping) and a seed; the case runs (max, f) and (min, -f) in serial mode "
         "and compares generation by generation: identical positions, costs exact negatives, same number of "
         "generations (fitness and rates legitimately differ and are not compared). Non-trivial = pair with >= 3 "
-        "cycles and >= 2 distinct best costs over the run; distinct = SHA-256 of the spec.")
+        "cycles and >= 2 distinct best costs over the run; distinct = SHA-256 of the spec. About 15 % of the cases make the judged run on an optimizer instance that has already been used for an optimize() call on another task (reused instance).")
 ASSUMPTIONS = ["-1*y == -y exactly in IEEE arithmetic, so negated objectives give exactly negated internal costs",
                "a pair in which either run raises is C06's business (both must then raise alike)"]
 BUDGET = {"quick": 30, "thorough": 200}
